@@ -44,6 +44,7 @@ def case_strategy():
         'sensor_type': st.sampled_from(['rate', 'increment']),
         'T': st.sampled_from([20.0, 40.0]),
         't0': st.sampled_from([0.0, 0.0, 7.5, 300.0, -12.25]),
+        'jitter': st.sampled_from([False, False, True]),       # unequal intervals (each rung splits every interval of the one before)
         'sub': st.integers(0, 2 ** 31 - 1),
     })
 
@@ -98,7 +99,7 @@ def imu_errors(d, ev, imu, t, stype):
 
 
 def imu_change(imu_h, imu_h2, stype, h):
-    """|imu_h - imu_{h/2}| on common epochs, in rate units."""
+    """|imu_h - imu_{h/2}| on common epochs, in rate units (h: interval lengths of the coarser table, scalar or (n,1))."""
     if stype == 'rate':
         a = imu_h[GYRO + ACC].values
         b = imu_h2[GYRO + ACC].values[::2]
@@ -118,9 +119,17 @@ def run_truth(case, ctx):
     ctx.label(f'form={form}', f'type={stype}', 'hemi=' + ('N' if case['lat0'] >= 0 else 'S') + ('E' if case['lon0'] >= 0 else 'W'),
               f"speed={case['speed']}", f"att_amp={case['att_amp']}", 't0=0' if case.get('t0', 0.0) == 0 else 't0!=0')
     res = {}
+    jit = bool(case.get('jitter', False))
+    ctx.label('stamps=' + ('irregular' if jit else 'uniform'))
+    t = None
     for h in LADDER + [LADDER[-1] / 2]:
         n = int(round(T / h))
-        t = case.get('t0', 0.0) + h * np.arange(n + 1)         # records need not start at time zero
+        if not jit:
+            t = case.get('t0', 0.0) + h * np.arange(n + 1)         # records need not start at time zero
+        elif t is None:     # intervals of 0.6..1.4 h on the first rung; every later rung splits each interval in the middle
+            t = case.get('t0', 0.0) + np.r_[0.0, np.cumsum(h * (1 + 0.4 * np.random.RandomState(case['sub'] ^ 0x5a5a).uniform(-1, 1, n)))]
+        else:
+            t = np.sort(np.r_[t, 0.5 * (t[1:] + t[:-1])])
         ev, tr, imu = synth(ctx, d, t, form, stype)
         res[h] = (ev, tr, imu, t)
     ulp_pos = np.spacing(max(abs(case['lat0']), abs(case['lon0']), 1.0)) * 111e3
@@ -129,20 +138,21 @@ def run_truth(case, ctx):
     # error of the (up to three) coarser rungs before it, from the third rung on.
     hs = LADDER + [LADDER[-1] / 2]
     errs = [imu_errors(d, res[h][0], res[h][2], res[h][3], stype) for h in hs]
-    chg = [imu_change(res[hs[k]][2], res[hs[k + 1]][2], stype, hs[k]) for k in range(len(LADDER))]
+    chg = [imu_change(res[hs[k]][2], res[hs[k + 1]][2], stype, np.diff(res[hs[k]][3])[:, None]) for k in range(len(LADDER))]
+    hmins = [float(np.diff(res[h][3]).min()) for h in hs]           # rounding floors follow the shortest interval
     for k, h in enumerate(LADDER):
         eg, ea = errs[k]
         dg = max(c[0] for c in chg[k:k + 2])
         da = max(c[1] for c in chg[k:k + 2])
-        fg = 256 * np.spacing(np.pi) / h + 1e-12
-        fa = 128 * np.spacing(6.4e6) / h ** 2 + 1e-9
+        fg = 256 * np.spacing(np.pi) / hmins[k] + 1e-12
+        fa = 128 * np.spacing(6.4e6) / hmins[k] ** 2 + 1e-9
         info = f'case={case} h={h}: gyro err by rung {[e[0] for e in errs]} changes {[c[0] for c in chg]}; accel err by rung {[e[1] for e in errs]} changes {[c[1] for c in chg]}'
         ctx.stat('gyro_err_over_4x_change', eg / (4 * dg + fg))
         ctx.stat('accel_err_over_4x_change', ea / (4 * da + fa))
         ctx.check(eg <= 4 * dg + fg, 'gyro_non_vanishing_error', lambda: info)
         ctx.check(ea <= 4 * da + fa, 'accel_non_vanishing_error', lambda: info)
     for k in range(2, len(hs)):
-        h = hs[k]
+        h = hmins[k]
         fg = 256 * np.spacing(np.pi) / h + 1e-12
         fa = 128 * np.spacing(6.4e6) / h ** 2 + 1e-9
         eg2, ea2 = errs[k]
@@ -167,7 +177,7 @@ def run_truth(case, ctx):
         trs.append(np.array([dpos, dvel]))
         if k >= 2:
             before = np.max(trs[max(0, k - 3):k], axis=0)
-            fl = np.array([256 * ulp_pos + 1e-7, 256 * ulp_pos / h + 1e-7])
+            fl = np.array([256 * ulp_pos + 1e-7, 256 * ulp_pos / hmins[k] + 1e-7])
             info = f'case={case} h={h}: returned trajectory vs design [pos m, vel m/s] by rung {[x.tolist() for x in trs]}'
             ctx.stat('traj_pos_halving', trs[k][0] / (0.9 * before[0] + fl[0]))
             ctx.stat('traj_vel_halving', trs[k][1] / (0.9 * before[1] + fl[1]))
@@ -187,7 +197,7 @@ def run_truth(case, ctx):
     for k in range(2, len(LADDER)):
         # rounding floor of the round trip: the synthesiser's acceleration noise 128 ulp(6.4e6)/h^2 (see ASSUMPTIONS) integrates to a
         # velocity random walk ~ a_noise sqrt(h T) and a position error ~ that x T (seed 10: 9e-4 m at 12.5 ms, 250 m/s, 20 s)
-        a_noise = 128 * np.spacing(6.4e6) / LADDER[k] ** 2
+        a_noise = 128 * np.spacing(6.4e6) / hmins[k] ** 2
         v_noise = 0.2 * a_noise * np.sqrt(LADDER[k] * T)
         fl = np.array([2e-4 + 0.5 * v_noise * T, 2e-5 + v_noise, 2e-8 + 1e-3 * v_noise])
         before = rts[max(0, k - 3):k].max(axis=0)
@@ -209,6 +219,7 @@ def rest_strategy():
         'roll': st.floats(-180, 180), 'pitch': st.floats(-85, 85), 'heading': st.floats(-180, 180),
         'form': st.sampled_from(FORMS), 'sensor_type': st.sampled_from(['rate', 'increment']),
         'h': st.sampled_from([0.01, 0.05, 0.1, 0.1]), 'n': st.integers(8, 60),
+        'jitter': st.integers(0, 3),           # 0, 1: uniform stamps; 2, 3: every interval has its own length (seed of the draw)
     })
 
 
@@ -216,6 +227,9 @@ def run_rest(case, ctx):
     from pyins import sim
     n, h = case['n'], case['h']
     t = 100.0 + h * np.arange(n)
+    jit = case.get('jitter', 0) >= 2
+    if jit:       # "time points for which the trajectory is provided" need not be equally spaced
+        t = 100.0 + np.r_[0.0, np.cumsum(h * (1 + 0.5 * np.random.RandomState(case['jitter'] + 7 * n).uniform(-1, 1, n - 1)))]
     lla = np.tile([case['lat'], case['lon'], case['alt']], (n, 1))
     rph = np.tile([case['roll'], case['pitch'], case['heading']], (n, 1))
     V = np.zeros((n, 3))
@@ -230,18 +244,21 @@ def run_rest(case, ctx):
     C = np.asarray(ROT.dcm_from_rph([case['roll'], case['pitch'], case['heading']]), float)
     w = C.T @ W.rate_n(case['lat'])
     f = -C.T @ np.array([0, 0, float(W.gravity(case['lat'], case['alt']))])
-    k = h if stype == 'increment' else 1.0
+    # increment type: row k holds the integral over (t[k-1], t[k]], row 0 duplicates row 1
+    k = np.r_[t[1] - t[0], np.diff(t)][:, None] if stype == 'increment' else 1.0
     eg = np.abs(imu[GYRO].values / k - w).max()
     ea = np.abs(imu[ACC].values / k - f).max()
     # rounding: the inertial position (6.4e6 m, t ~ 100 s) is differentiated twice by splines
-    fg = 1e-11 + 64 * np.spacing(np.pi) / h
-    fa = 1e-7 + 128 * np.spacing(6.4e6) / h ** 2
+    hmin = float(np.diff(t).min())
+    fg = 1e-11 + 64 * np.spacing(np.pi) / hmin
+    fa = 1e-7 + 128 * np.spacing(6.4e6) / hmin ** 2
     ctx.stat('rest_gyro', eg / fg)
     ctx.stat('rest_accel', ea / fa)
-    ctx.check(eg <= fg, 'rest_gyro_not_earth_rate', lambda: f'case={case}: gyro {imu[GYRO].values[n // 2] / k} expected {w} (|err| {eg:.3e} tol {fg:.3e})')
-    ctx.check(ea <= fa, 'rest_accel_not_gravity_reaction', lambda: f'case={case}: accel {imu[ACC].values[n // 2] / k} expected {f} (|err| {ea:.3e} tol {fa:.3e})')
+    ctx.check(eg <= fg, 'rest_gyro_not_earth_rate', lambda: f'case={case}: gyro {(imu[GYRO].values / k)[n // 2]} expected {w} (|err| {eg:.3e} tol {fg:.3e})')
+    ctx.check(ea <= fa, 'rest_accel_not_gravity_reaction', lambda: f'case={case}: accel {(imu[ACC].values / k)[n // 2]} expected {f} (|err| {ea:.3e} tol {fa:.3e})')
     dv = np.abs(tr[['VN', 'VE', 'VD']].values).max()
-    ctx.check(dv <= 1e-6 + 64 * np.spacing(6.4e6) / h, 'rest_velocity_nonzero', lambda: f'{dv:.3e}')
+    ctx.check(dv <= 1e-6 + 64 * np.spacing(6.4e6) / hmin, 'rest_velocity_nonzero', lambda: f'{dv:.3e}')
+    ctx.label('stamps=' + ('irregular' if jit else 'uniform'))
     ctx.mark_nontrivial(abs(case['roll']) > 5 and abs(case['pitch']) > 5 and abs(case['lat']) > 1)
 
 
